@@ -184,7 +184,63 @@ impl<'f, T: Elem> State<'f, T> {
                                 None => break,
                             }
                         }
-                        format!("ok:{}|{}", vals(seen), hints.join(","))
+                        // The other `Iterator` methods must agree with stepping (they may be overridden):
+                        // a second and third walk with `nth` jumps of varying width (this is what `skip` and
+                        // `step_by` call), then `count` / `last` on fresh iterators.
+                        let mut bad: Option<String> = None;
+                        for jumps in [&[0usize, 1, 2, 3, 5, 8, 4, 7][..], &[4usize, 0, 9, 1, 6][..]] {
+                            if bad.is_some() {
+                                break;
+                            }
+                            if let Ok(mut it2) = c.iter_from(*i) {
+                                let mut pos = 0usize;
+                                let mut k = 0usize;
+                                // one plain step first, so that jumps also start in the middle of a leaf
+                                if let Some(v) = it2.next() {
+                                    if seen.first().map(|w| **w == *v) != Some(true) {
+                                        bad = Some("next".to_string());
+                                    }
+                                    pos = 1;
+                                }
+                                while bad.is_none() && pos <= seen.len() {
+                                    let j = jumps[k % jumps.len()];
+                                    k += 1;
+                                    let got = it2.nth(j);
+                                    let want = seen.get(pos + j);
+                                    let same = match (got, want) {
+                                        (Some(g), Some(w)) => *g == **w,
+                                        (None, None) => true,
+                                        _ => false,
+                                    };
+                                    if !same {
+                                        bad = Some(format!("nth({}) at position {}", j, pos));
+                                    }
+                                    pos += j + 1;
+                                    if pos <= seen.len() && it2.len() != seen.len() - pos {
+                                        bad = Some(format!("len after nth({}) at position {}", j, pos));
+                                    }
+                                }
+                            }
+                        }
+                        if bad.is_none() {
+                            if let (Ok(it3), Ok(it4)) = (c.iter_from(*i), c.iter_from(*i)) {
+                                if it3.count() != seen.len() {
+                                    bad = Some("count".to_string());
+                                }
+                                let same = match (it4.last(), seen.last()) {
+                                    (Some(g), Some(w)) => *g == **w,
+                                    (None, None) => true,
+                                    _ => false,
+                                };
+                                if !same {
+                                    bad = Some("last".to_string());
+                                }
+                            }
+                        }
+                        match bad {
+                            None => format!("ok:{}|{}", vals(seen), hints.join(",")),
+                            Some(b) => format!("ok:{}|{}|adaptor-differs:{}", vals(seen), hints.join(","), b.replace(' ', "_")),
+                        }
                     }
                 }
             }
@@ -210,15 +266,19 @@ impl<'f, T: Elem> State<'f, T> {
             },
             Op::SszEnc(a) => {
                 let c = src!(a);
-                let (bytes, len) = c.ssz();
+                let (bytes, len, bad_append) = c.ssz();
                 let (fixed, fixed_len) = c.ssz_static();
-                format!(
+                let mut r = format!(
                     "ok:{}|{}|f={}:{}",
                     hex_or_dot(&bytes),
                     len,
                     fixed as u8,
                     fixed_len
-                )
+                );
+                if let Some(b) = bad_append {
+                    r.push_str(&format!("|append-differs:{}", hex_or_dot(&b)));
+                }
+                r
             }
             Op::SerdeSer(a) => {
                 let c = src!(a);
